@@ -1441,7 +1441,7 @@ fn c13_end_to_end(ctx: &Ctx, sink: &mut Sink) -> Value {
         if i == 2 && !pubs.iter().any(|p| p["status"] == 1 && p["phc_attribute_present"] == true) {
             sink.add("C13:e2e:phc-never-read-again".into(), format!("{}: three seconds after the attribute appeared there is still no Synchronized record", sc.name), doc.clone());
         }
-        report.push(json!({"scenario": sc.name, "publications": pubs.len(), "synchronized_publications": synced, "daemon_exit_status": v["daemon_exit_status"]}));
+        report.push(json!({"scenario": sc.name, "publications": pubs.len(), "synchronized_publications": synced, "daemon_exit_status": v["daemon_exit_status"], "machine": v["machine"]}));
     }
     json!({"scenarios": report, "stand_in_chronyd": "answers tracking requests on /var/run/chrony/chronyd.sock in a private mount namespace; reference time = real clock - 1 s"})
 }
@@ -1512,7 +1512,7 @@ fn c12_end_to_end(ctx: &Ctx, sink: &mut Sink) -> Value {
         if !sc.udp_only && attributed == 0 {
             sink.add("C12:e2e:nothing-published".into(), format!("{}: no Synchronized publication within {} ms", sc.name, sc.observe_ms), doc.clone());
         }
-        report.push(json!({"scenario": sc.name, "requests_seen_by_chronyd": arrivals.len(), "synchronized_publications_attributed": attributed}));
+        report.push(json!({"scenario": sc.name, "requests_seen_by_chronyd": arrivals.len(), "synchronized_publications_attributed": attributed, "machine": v["machine"]}));
     }
     json!({"scenarios": report})
 }
